@@ -53,6 +53,10 @@ type Response struct {
 // Case is one resource set and the path it is fed through.
 type Case struct {
 	Path      string     `json:"path"` // api | terraform
+	// TFLayout: where the resources sit in the Terraform plan: "" = all in the root module; items-in-child = dictionary items /
+	// ACL entries in a child module that declares no service; service-in-child = the service in a child module, items in the root;
+	// all-in-child; items-in-grandchild
+	TFLayout string `json:"tf_layout,omitempty"`
 	Dicts     []Dict     `json:"dicts"`
 	Acls      []Acl      `json:"acls"`
 	Backends  []Backend  `json:"backends"`
@@ -173,7 +177,26 @@ func planJSON(c Case) []byte {
 	svc["acl"], svc["dictionary"], svc["backend"], svc["director"], svc["response_object"] = acls, dicts, backends, directors, resps
 	svc["vcl"] = []any{map[string]any{"name": "main", "main": true, "content": "sub vcl_recv { }"}}
 	resources := append([]any{map[string]any{"provider_name": "registry.terraform.io/fastly/fastly", "type": "fastly_service_vcl", "values": svc}}, extra...)
-	doc := map[string]any{"planned_values": map[string]any{"root_module": map[string]any{"resources": resources}}}
+	service := resources[:1]
+	mod := func(addr string, res []any, children ...any) map[string]any {
+		m := map[string]any{"address": addr, "resources": res}
+		if len(children) > 0 {
+			m["child_modules"] = children
+		}
+		return m
+	}
+	root := map[string]any{"resources": resources}
+	switch c.TFLayout {
+	case "items-in-child":
+		root = map[string]any{"resources": service, "child_modules": []any{mod("module.edge_data", extra)}}
+	case "service-in-child":
+		root = map[string]any{"resources": extra, "child_modules": []any{mod("module.service", service)}}
+	case "all-in-child":
+		root = map[string]any{"resources": []any{}, "child_modules": []any{mod("module.all", resources)}}
+	case "items-in-grandchild":
+		root = map[string]any{"resources": service, "child_modules": []any{mod("module.outer", []any{}, mod("module.outer.module.inner", extra))}}
+	}
+	doc := map[string]any{"planned_values": map[string]any{"root_module": root}}
 	b, _ := json.Marshal(doc)
 	return b
 }
@@ -357,6 +380,26 @@ func gen20(tier string, emit func(Case)) {
 				emitBoth(withLabel(c, fmt.Sprintf("structure director members=%d retries=%s", nb, map[bool]string{true: "absent", false: "set"}[retries < 0])))
 			}
 		}
+	}
+	// Terraform module layouts (terraform path only)
+	for _, lay := range []string{"items-in-child", "service-in-child", "all-in-child", "items-in-grandchild"} {
+		for _, n := range []int{1, 3} {
+			c := base()
+			c.Dicts[0].Items, c.Acls[0].Entries = nil, nil
+			for i := 0; i < n; i++ {
+				c.Dicts[0].Items = append(c.Dicts[0].Items, DictItem{fmt.Sprintf("key%d", i), fmt.Sprintf("value %d", i)})
+				c.Acls[0].Entries = append(c.Acls[0].Entries, AclEntry{fmt.Sprintf("10.0.%d.0", i), i%2 == 1, 24, ""})
+			}
+			c.TFLayout, c.Path, c.Label = lay, "terraform", "structure module-layout "+lay
+			emit(c)
+		}
+	}
+	// resource names that differ only in the length of a run of non-identifier characters must stay distinct
+	for _, pr := range [][2]string{{"api-v1", "api--v1"}, {"a.b", "a..b"}, {"x y", "x  y"}, {"o-", "o--"}, {"Origin - EU", "Origin-EU"}} {
+		c := base()
+		c.Backends = []Backend{{pr[0], "one.example.com"}, {pr[1], "two.example.com"}}
+		c.Directors[0].Backends = []string{pr[1], pr[0]}
+		emitBoth(withLabel(c, "structure names-differing-in-run-length"))
 	}
 	c := base()
 	c.Dicts = append(c.Dicts, Dict{"second_table", []DictItem{{"a", "b"}}})
@@ -551,7 +594,12 @@ func run(c Case) engine.Result {
 		return res
 	}
 	declaredFor := map[string]string{}
+	seenDecl := map[string]string{}
 	for i, b := range c.Backends {
+		if prev, dup := seenDecl[order[i]]; dup && prev != b.Name {
+			fail("unfaithful|backend-names-collide", fmt.Sprintf("backends %q and %q are both declared as %s", prev, b.Name, order[i]), nil)
+		}
+		seenDecl[order[i]] = b.Name
 		decl := backends[order[i]]
 		declaredFor[b.Name] = order[i]
 		host := ""
@@ -644,7 +692,7 @@ func init() {
 	engine.Register(engine.Spec[Case]{
 		ID:    "C20",
 		Level: "exploration",
-		Rule: "resource sets fed through both entry paths (a stub Fastly API fetcher and a generated Terraform plan JSON through terraform.ParseStdin): every string of length <= 2 (quick) / 3 (thorough) over the 12-symbol alphabet {a \" % 2 0 { } newline # \\ space ;} plus URL-encoded and quote/brace specials placed in turn in every free-text field (dictionary key, dictionary value, ACL comment, backend address, response content, response content type), every pair of fields with every pair of strings of length <= 1 (thorough: 2), every 1-2 character insertion of -, ., space, é at every position of a backend name (also as director member) and of a director name, and structures (0/1/3 items, IPv4/IPv6 entries x negated x 6 masks, directors with 0-2 members x 3 types x retries absent/0/5, two of each, nothing). Oracle: generation does not crash or refuse, every generated item parses, and the parsed tables / acls / backends / directors / response objects have exactly the key, value, address, mask, negation, membership and content of the resources; a director member must name the backend as it is declared. non-trivial = every case; distinct = distinct (path, resources)",
+		Rule: "resource sets fed through both entry paths (a stub Fastly API fetcher and a generated Terraform plan JSON through terraform.ParseStdin): every string of length <= 2 (quick) / 3 (thorough) over the 12-symbol alphabet {a \" % 2 0 { } newline # \\ space ;} plus URL-encoded and quote/brace specials placed in turn in every free-text field (dictionary key, dictionary value, ACL comment, backend address, response content, response content type), every pair of fields with every pair of strings of length <= 1 (thorough: 2), every 1-2 character insertion of -, ., space, é at every position of a backend name (also as director member) and of a director name, and structures (0/1/3 items, IPv4/IPv6 entries x negated x 6 masks, directors with 0-2 members x 3 types x retries absent/0/5, two of each, nothing, 4 Terraform module layouts with items / the service in child and grandchild modules, backend names that differ only in the length of a run of non-identifier characters). Oracle: generation does not crash or refuse, every generated item parses, and the parsed tables / acls / backends / directors / response objects have exactly the key, value, address, mask, negation, membership and content of the resources; a director member must name the backend as it is declared. non-trivial = every case; distinct = distinct (path, resources)",
 		Gen:  gen20,
 		Key:  func(c Case) string { b, _ := json.Marshal(c); return string(b) },
 		Run:  run,
